@@ -9,10 +9,10 @@ META = {
             "regenerated RFC1123_STRFTIME, gmtime/timegm as civil-from-days / days-from-civil): for EVERY t in "
             "[0, 253402300800) (1970..9999) parsing the formatted date returns t; for EVERY string of the IMF-fixdate, RFC 850 "
             "and asctime forms (all day-name, 2DIGIT/4DIGIT field values) the parser's answer is computed in closed form, and "
-            "whenever the fields are a real calendar date and the string is accepted the result is the denoted time; the day "
-            "count is tied to the Gregorian calendar (0 on 1 Jan 1970, +1 per calendar day, inverse of civil-from-days for all "
-            "integers). The full 'accepted => denoted' statement is refuted: strings naming a day that does not exist "
-            "(e.g. 30 Feb) are accepted and shifted into the next month (known finding C35-nonexistent-day).",
+            "whenever a string of one of the forms is accepted its fields are a real calendar date and the result is the "
+            "denoted time (days that do not exist in the month, e.g. 30 Feb, are rejected); conversely every denoting string "
+            "is accepted; the day count is tied to the Gregorian calendar (0 on 1 Jan 1970, +1 per calendar day, inverse of "
+            "civil-from-days for all integers).",
     "note": "Trusted: Coq kernel, extraction, gen/gen_datetabs.cc, harness/h_date.cc. glibc gmtime/timegm/strftime/strtok/atoi "
             "are modelled, not verified from source: validated by differential runs only (raw date.timegm/date.gmtime entries "
             "included). Conventions fixed in the statements: the day-name is not checked against the date (the code ignores "
